@@ -398,6 +398,12 @@ func (u *udpConnection) send(batchSize int, pool router.PacketPool) {
 			toWrite = 0
 		}
 	}
+
+	// We have to stop sending. Return the packets that we retained for a retry to the pool; like
+	// receive() does with its unused packets (the process is not required to exit).
+	for _, p := range pkts[:toWrite] {
+		pool.Put(p)
+	}
 }
 
 // makeHashSeed creates a new random number to serve as hash seed.
